@@ -41,7 +41,7 @@ let main = null
 
 module.exports = mk({
   id: 'C12',
-  families: ['A', 'B', 'C', 'M', 'S', 'T'],
+  families: ['A', 'B', 'C', 'M', 'S', 'T', 'Q', 'R'],
   familyOpts: (tier) => ({ B: { k: tier === 'thorough' ? 2 : 1 } }),
   extra: async (tier) => {
     const dims = [
